@@ -584,7 +584,10 @@ def run_trainer_child(plan, root, key):
         with contextlib.redirect_stdout(sink), contextlib.redirect_stderr(sink):
             if plan.get("rerun"):
                 # history: an EARLIER run with another configuration (and another key) already used this output folder
-                p0 = dict(plan, epochs=3 - plan.get("epochs", 1), save_last=not bool(plan["save_last"]), aug=True, early=True)
+                p0 = dict(plan, epochs=3 - plan.get("epochs", 1), save_last=not bool(plan["save_last"]), aug=True, early=True,
+                          delete_chunks=False)  # the earlier run kept its chunk files
+                if plan.get("rerun_other_model"):
+                    p0["model_type"] = plan["rerun_other_model"]  # ... and was another model type (another number of samples)
                 cfg0 = build_config(p0, out_dir, chunks_dir, slp, prev_key)
                 OmegaConf.update(cfg0, "trainer_config.optimizer.lr", 0.003, force_add=True)
                 OmegaConf.update(cfg0, "trainer_config.seed", 7, force_add=True)
